@@ -47,6 +47,18 @@ def envelope_for(seed, index, vendor, cls, rng, d, sign=False, with_cid=True, bi
         items.insert(rng.randrange(0, len(items) + 1), ("suit-manifest-component-id", cid))
         m = dict(items)
         desc["SUIT_Envelope_Tagged"]["suit-manifest"] = m
+    if with_cid and rng.random() < 0.4:
+        # a root-like manifest: installed-manifest components of *other* classes (its dependencies) are listed in suit-components, which
+        # may well come before the manifest's own component identifier
+        others = [{"RFC4122_UUID": {"namespace": "nordicsemi.com", "name": n}} for n in ("nRF54H20_sample_app", "nRF54H20_sample_rad", "nRF54H20_sample_root")
+                  if (("nordicsemi.com", n) != (vendor, cls))]
+        common_ = dict(m.get("suit-common") or {})
+        comps = list(common_.get("suit-components") or [])
+        common_["suit-components"] = [["INSTLD_MFST", o] for o in others[: rng.randrange(1, 3)]] + comps
+        m["suit-common"] = common_
+        # ... and suit-common is listed before the component identifier
+        m = {"suit-common": m.pop("suit-common"), **m} if rng.random() < 0.7 else m
+        desc["SUIT_Envelope_Tagged"]["suit-manifest"] = m
     if big:
         m["suit-reference-uri"] = "u" * 6000
     if rng.random() < 0.3:
@@ -80,14 +92,23 @@ def impl_boot(files, base, kconfig, soc, d):
         open(cfgp, "w").write(kconfig)
     old = os.getcwd()
     os.chdir(d)
+    before = {}
     try:
+        if (len(files) + base // 16 + len(soc)) % 3 == 0:
+            # the output directory still holds the files of an earlier run of the same envelopes for another storage address
+            # (same bytes, other addresses): this run must not take them for up to date
+            try:
+                ImageCreator.create_files_for_boot(paths, outd, (base + 0x1000) % (1 << 31), cfgp, soc)
+            except BaseException:  # noqa
+                pass
+            before = {f: open(os.path.join(outd, f)).read() for f in os.listdir(outd)}
         ImageCreator.create_files_for_boot(paths, outd, base, cfgp, soc)
         out = {}
         for f in sorted(os.listdir(outd)):
             out[f] = open(os.path.join(outd, f)).read()
         return {"ok": out}
     except BaseException as e:  # noqa
-        return {"err": type(e).__name__, "wrote": sorted(os.listdir(outd))}
+        return {"err": type(e).__name__, "wrote": sorted(f for f in os.listdir(outd) if before.get(f) != open(os.path.join(outd, f)).read())}
     finally:
         os.chdir(old)
 
